@@ -489,3 +489,143 @@ Proof.
   intros A NI. apply (proj2 (history_names_only root ops w A NI)).
   intros n V. now apply root_outside_children.
 Qed.
+
+(* ------------------------------------------------------------------ *)
+(* 5. the verifier's fragment in full                                  *)
+
+(* the manager is called at most once, through Get, with the value of a
+   critical string attribute that is not blank, and only when the minimum
+   version attribute is well formed and the verifier has a manager *)
+Lemma verify_plan_calls a mb pm :
+  snd (verify_plan a mb pm) = []
+  \/ exists s, a = VStr s /\ all_space s = false /\ mb = false /\ pm = true
+               /\ verify_plan a mb pm = (ENone, [CGet s]).
+Proof.
+  destruct a as [|s| |s]; cbn; auto.
+  destruct (all_space s) eqn:SP; cbn; auto.
+  destruct mb; cbn; auto. destruct pm; cbn; auto.
+  right. exists s. auto.
+Qed.
+
+(* whether the signing certificate is trusted is not consulted *)
+Lemma verify_x_ignores_trust w e root a mb pm t1 t2 :
+  exec_op (mk_input w e root (OVerifyX a mb pm t1)) = exec_op (mk_input w e root (OVerifyX a mb pm t2)).
+Proof. reflexivity. Qed.
+
+(* end-to-end verification, whatever the attribute: nothing is touched, or the
+   attribute's value is a single component and everything stays in <root>/<value> *)
+Lemma verify_x_contained i a mb pm t :
+  is_abs (i_root i) = true -> i_op i = OVerifyX a mb pm t ->
+  let r := exec_op i in
+  (r_log r = [] /\ r_fs r = world i)
+  \/ (exists s, a = VStr s /\ valid_name s = true /\ resolves_to_child (i_root i) s
+       /\ r_err r <> EInvalid
+       /\ Forall (fun e => withinb (allowed (i_root i) s) (eff_path e) = true) (r_log r)
+       /\ (forall q, withinb (allowed (i_root i) s) q = false ->
+                     fs_lookup q (r_fs r) = fs_lookup q (world i))).
+Proof.
+  intros A O r.
+  destruct (verify_x_reduces (world i) (i_root i) a mb pm)
+    as [(E & _) | (s & -> & -> & -> & _ & _ & _)].
+  - left. unfold r, exec_op. rewrite O, E. auto.
+  - unfold r. rewrite (exec_verify_x_as_verify i s t O).
+    set (i' := with_op i (OVerify s)).
+    assert (NO : name_op i' s) by (right; right; reflexivity).
+    destruct (every_name i' s A NO) as [(_ & L & F) | (RC & _ & NI & L & F)].
+    + left. auto.
+    + destruct (valid_name s) eqn:V.
+      * right. exists s. auto 10.
+      * left. destruct (name_op_invalid i' s NO V) as (_ & L' & F'). auto.
+Qed.
+
+(* white space: a few values of strings.TrimSpace(s) == "" *)
+Lemma all_space_examples :
+  all_space "" = true /\ all_space (B [32; 9; 10; 11; 12; 13]%N) = true
+  /\ all_space (B [194; 160]%N) = true /\ all_space (B [194; 133; 32]%N) = true
+  /\ all_space (B [225; 154; 128]%N) = true /\ all_space (B [226; 128; 128]%N) = true
+  /\ all_space (B [226; 128; 138]%N) = true /\ all_space (B [226; 128; 168; 226; 128; 169]%N) = true
+  /\ all_space (B [226; 128; 175]%N) = true /\ all_space (B [226; 129; 159]%N) = true
+  /\ all_space (B [227; 128; 128; 32]%N) = true
+  /\ all_space (B [226; 128; 139]%N) = false   (* U+200B zero width space *)
+  /\ all_space (B [225; 160; 142]%N) = false   (* U+180E *)
+  /\ all_space (B [239; 187; 191]%N) = false   (* U+FEFF *)
+  /\ all_space (B [194]%N) = false /\ all_space (B [194; 32]%N) = false
+  /\ all_space (B [160]%N) = false /\ all_space (B [32; 46; 46]%N) = false.
+Proof. vm_compute. repeat split. Qed.
+
+(* ------------------------------------------------------------------ *)
+(* 6. the paths of the effect log are clean rooted paths               *)
+(* [withinb] compares strings; it means containment because the paths it is
+   applied to contain no ".", ".." or empty component *)
+
+Lemma clean_render l :
+  Forall (fun c => plainb c = true) l -> clean (render true l) = render true l.
+Proof.
+  intros P.
+  assert (A : is_abs (render true l) = true) by reflexivity.
+  rewrite (clean_abs _ A). f_equal.
+  unfold render. change ("/" ++ join_slash l) with ("" ++ String slash (join_slash l)).
+  rewrite split_slash_app. cbn [split_slash app].
+  destruct l as [|a l].
+  - reflexivity.
+  - rewrite split_join_plain; [|discriminate|].
+    + change ("" :: a :: l) with ([""] ++ (a :: l))%list. rewrite clean_stack_app.
+      change (clean_stack true [""] []) with (@nil string).
+      rewrite (clean_stack_plain _ _ _ P), app_nil_r. apply rev_involutive.
+    + eapply Forall_impl; [|exact P]. intros x. apply plainb_no_slash.
+Qed.
+
+Lemma pjoin_root_clean root rel :
+  is_abs root = true ->
+  clean (pjoin [root; rel]) = pjoin [root; rel] /\ is_abs (pjoin [root; rel]) = true.
+Proof.
+  intros A. rewrite (pjoin_root _ _ A). split; [|reflexivity].
+  apply clean_render. apply Forall_rev.
+  apply clean_stack_rooted_inv; [apply split_slash_pieces | apply root_stack_plain].
+Qed.
+
+Definition clean_rooted (p : string) : Prop := clean p = p /\ is_abs p = true.
+
+Lemma name_paths_clean root name :
+  is_abs root = true -> valid_name name = true ->
+  clean_rooted (allowed root name)
+  /\ clean_rooted (child_path (allowed root name) (bin_name name)).
+Proof.
+  intros A V. rewrite <- (bin_path _ _ A V), <- (dir_path _ _ A V).
+  split; now apply pjoin_root_clean.
+Qed.
+
+Lemma name_op_paths_clean i name :
+  is_abs (i_root i) = true -> name_op i name ->
+  Forall (fun e => clean_rooted (eff_path e)) (r_log (exec_op i)).
+Proof.
+  intros A NO. destruct (valid_name name) eqn:V.
+  - destruct (name_paths_clean (i_root i) name A V) as (Ca & Cb).
+    assert (GM : forall w, Forall (fun e => clean_rooted (eff_path e)) (r_log (get_meta w (i_root i) name))).
+    { intros w. destruct (get_meta_valid w (i_root i) name A V) as (_ & _ & _ & L).
+      destruct L as [L | [ran L]]; rewrite L.
+      - constructor; [exact Cb | constructor].
+      - constructor; [exact Cb | constructor; [exact Cb | constructor]]. }
+    destruct NO as [H | [H | H]]; unfold exec_op; rewrite H.
+    + apply GM.
+    + destruct (uninstall_valid (world i) (i_root i) name A V) as [U | (e & _ & _ & _ & U)];
+        rewrite U; cbn.
+      * constructor; [exact Ca | constructor; [exact Ca | constructor]].
+      * constructor; [exact Ca | constructor].
+    + destruct (all_space name) eqn:SP.
+      * rewrite (verify_lookup_blank _ _ _ SP). constructor.
+      * rewrite (verify_lookup_nonblank _ _ _ SP). cbn. apply GM.
+  - destruct (name_op_invalid i name NO V) as (_ & -> & _). constructor.
+Qed.
+
+(* for a clean rooted a, "q is a or lies below a" on strings is "the
+   components of q extend those of a" *)
+Lemma withinb_comps a q :
+  withinb a q = true -> exists rest, comps_of q = (comps_of a ++ rest)%list.
+Proof.
+  unfold withinb. rewrite orb_true_iff, String.eqb_eq. intros [-> | H].
+  - exists []. now rewrite app_nil_r.
+  - apply has_prefix_spec in H as [t ->]. exists (comps_of t).
+    unfold comps_of. rewrite append_assoc. change ("/" ++ t) with (String slash t).
+    rewrite split_slash_app, filter_app. reflexivity.
+Qed.
